@@ -418,4 +418,76 @@ pub proof fn lemma_to_be(le_total: int, be_total: int, k: int)
     }
 }
 
+
+// ------------------------------------------------------------------------------------------------------------------
+// pseudo headers (RFC 768 / RFC 9293 section 3.1 for IPv4, RFC 8200 section 8.1 for IPv6) in big-endian (RFC) and in the
+// crate's native-endian form, with the relation lemma_to_be needs
+// ------------------------------------------------------------------------------------------------------------------
+
+/// IPv4 pseudo header: source, destination, zero byte + protocol, 16 bit upper-layer length
+pub open spec fn ps4_be(s: Seq<u8>, d: Seq<u8>, proto: int, len: int) -> int {
+    wb(s[0], s[1]) + wb(s[2], s[3]) + wb(d[0], d[1]) + wb(d[2], d[3]) + proto + len
+}
+pub open spec fn ps4_le(s: Seq<u8>, d: Seq<u8>, proto: int, len: int) -> int {
+    w(s[0], s[1]) + w(s[2], s[3]) + w(d[0], d[1]) + w(d[2], d[3]) + 256 * proto + (len / 256 + 256 * (len % 256))
+}
+pub open spec fn ps4_k(s: Seq<u8>, d: Seq<u8>, proto: int, len: int) -> int {
+    s[1] as int + s[3] as int + d[1] as int + d[3] as int + proto + len % 256
+}
+pub proof fn lemma_ps4(s: Seq<u8>, d: Seq<u8>, proto: int, len: int)
+    requires 0 <= proto <= 255, 0 <= len <= 65535
+    ensures 256 * ps4_le(s, d, proto, len) == ps4_be(s, d, proto, len) + 65535 * ps4_k(s, d, proto, len),
+        ps4_le(s, d, proto, len) >= 0, ps4_be(s, d, proto, len) >= 0, ps4_k(s, d, proto, len) >= 0,
+        ps4_be(s, d, proto, len) == 0 ==> ps4_k(s, d, proto, len) == 0,
+{
+    vstd::arithmetic::div_mod::lemma_fundamental_div_mod(len, 256);
+}
+
+pub open spec fn a16_be(a: Seq<u8>) -> int {
+    wb(a[0], a[1]) + wb(a[2], a[3]) + wb(a[4], a[5]) + wb(a[6], a[7]) + wb(a[8], a[9]) + wb(a[10], a[11]) + wb(a[12], a[13]) + wb(a[14], a[15])
+}
+pub open spec fn a16_le(a: Seq<u8>) -> int {
+    w(a[0], a[1]) + w(a[2], a[3]) + w(a[4], a[5]) + w(a[6], a[7]) + w(a[8], a[9]) + w(a[10], a[11]) + w(a[12], a[13]) + w(a[14], a[15])
+}
+pub open spec fn a16_k(a: Seq<u8>) -> int {
+    a[1] as int + a[3] as int + a[5] as int + a[7] as int + a[9] as int + a[11] as int + a[13] as int + a[15] as int
+}
+/// IPv6 pseudo header: source, destination, 32 bit upper-layer packet length, three zero bytes + next header
+/// (opaque: users only pass the term on to `lemma_to_be`; `lemma_ps6` reveals it)
+#[verifier::opaque]
+pub open spec fn ps6_be(s: Seq<u8>, d: Seq<u8>, proto: int, len: int) -> int {
+    a16_be(s) + a16_be(d) + len / 65536 + len % 65536 + proto
+}
+/// the four big-endian bytes of a 32 bit length, summed as two native-endian words
+pub open spec fn len32_le(len: int) -> int {
+    crate::vx::b32(len, 0) + 256 * crate::vx::b32(len, 1) + crate::vx::b32(len, 2) + 256 * crate::vx::b32(len, 3)
+}
+pub open spec fn ps6_le(s: Seq<u8>, d: Seq<u8>, proto: int, len: int) -> int {
+    a16_le(s) + a16_le(d) + 256 * proto + len32_le(len)
+}
+#[verifier::opaque]
+pub open spec fn ps6_k(s: Seq<u8>, d: Seq<u8>, proto: int, len: int) -> int {
+    a16_k(s) + a16_k(d) + proto + (len / 65536) % 256 + len % 256
+}
+pub proof fn lemma_ps6(s: Seq<u8>, d: Seq<u8>, proto: int, len: int)
+    requires 0 <= proto <= 255, 0 <= len <= 0xffff_ffff
+    ensures 256 * ps6_le(s, d, proto, len) == ps6_be(s, d, proto, len) + 65535 * ps6_k(s, d, proto, len),
+        ps6_le(s, d, proto, len) >= 0, ps6_be(s, d, proto, len) >= 0, ps6_k(s, d, proto, len) >= 0,
+        ps6_be(s, d, proto, len) == 0 ==> ps6_k(s, d, proto, len) == 0,
+{
+    reveal(ps6_be); reveal(ps6_k); reveal(crate::vx::b32);
+    let hi = len / 65536; let lo = len % 65536;
+    vstd::arithmetic::div_mod::lemma_fundamental_div_mod(len, 65536);
+    vstd::arithmetic::div_mod::lemma_fundamental_div_mod(hi, 256);
+    vstd::arithmetic::div_mod::lemma_fundamental_div_mod(lo, 256);
+    // len / 16777216 == hi / 256 and (len / 256) % 256 == lo / 256 and len % 256 == lo % 256
+    assert(len / 16777216 == hi / 256 && (len / 256) % 256 == lo / 256 && len % 256 == lo % 256) by {
+        let x = len as u32;
+        assert((x / 16777216u32) == (x / 65536u32) / 256u32 && (x / 256u32) % 256u32 == (x % 65536u32) / 256u32 && x % 256u32 == (x % 65536u32) % 256u32) by(bit_vector);
+    }
+}
+
+/// TCP segment with the checksum field (bytes 16, 17) taken as zero (16 is even, so leaving the word out is the same as zeroing it)
+pub open spec fn tcp_seg_be(seg: Seq<u8>) -> int { wsum_be_all(seg.subrange(0, 16)) + wsum_be_all(seg.subrange(18, seg.len() as int)) }
+
 } // verus!
